@@ -199,7 +199,7 @@ EXTRA = {
  "C09": " Also decides that PrepareRead grants n only under n <= ReadLen() or after Commit(n-ReadLen()) under n-ReadLen() <= WriteLen(), that the memmove tail of Consume/Discard starts exactly the shifted amount above its destination, and exact amounts/bounds of Save, Reset, UnreadByte/ShrinkBy, Write*, Claim/ClaimFixed and the save-area validator (canonical comparison forms). Also decides that Read consumes exactly the count it copied, that DiscardAll discards [0, SaveLen()) and that UnreadByte/ShrinkBy move wi.",
  "C10": " Also decides that the chunk Commit returns starts at the cursor of the region it was attached to.",
  "C11": " Also decides that the mapping routine is invoked once with each of the two addresses.",
- "C12": " Also decides that reactor handlers leave the reactor's buffer/destination/callback alone, that the destination of a datagram write is computed from the argument on that call, and that a net.IP copied into a 4-byte kernel address goes through To4(). Also decides that the exported membership entry points hand the group and source derived from their own arguments to the per-family function. Also decides that the membership functions hand the errno of their setsockopt call to the caller, copy the group and (when an interface is given) an address of that interface into the request, that JoinSourceOn resolves and hands on the interface it was given, and that NewUDPPeer takes IP and Port of the local address from getsockname for every family.",
+ "C12": " Also decides that reactor handlers leave the reactor's buffer/destination/callback alone, that the destination of a datagram write is computed from the argument on that call, and that a net.IP copied into a 4-byte kernel address goes through To4(). Also decides that the exported membership entry points hand the group and source derived from their own arguments to the per-family function. Also decides that the membership functions hand the errno of their setsockopt call to the caller, copy the group and (when an interface is given) an address of that interface into the request, that JoinSourceOn resolves and hands on the interface it was given, and that NewUDPPeer takes IP and Port of the local address from getsockname for every family. Also decides that the error of a datagram attempt reaches the callback only when it is nil or known not to be ErrWouldBlock.",
  "C13": " Also decides that the poller-interest removal and slot-table deregistration of every Close run behind its once-guard, and that the failed websocket handshake hands its connection to handshake(), which closes it after dial returned. Also decides that every field an acquisition was stored into is released by its owner's Close (poller.waker, sockets, timerfd, mappings), that Stream.CloseNextLayer closes the dialed connection, and that Destroy forgets the mapping exactly on munmap's success edge.",
  "C14": " Also decides (R2) that an object built on a descriptor from open(2) has a deferral route that does not depend on the epoll registration - violated by file.scheduleRead/scheduleWrite for regular files (D28, known finding).",
  "C15": " Also decides that handleFrame returns a check's error in every state and that the framing-violation errors are raised only by the checks handleFrame runs.",
